@@ -86,6 +86,28 @@ SUM.update({
  "C19-c": "the HTTP handler attaches a (nil) permission set to token-less requests too: the proxy's defaults no longer apply to anonymous callers",
  "C20-c": "a read that returns data together with EOF is split into (n, nil) and a later error: after the upload completed the later read reports a closed body instead of EOF",
 })
+SUM.update({
+ "C01-d": "a zero-valued result is not boxed and goes out as `null` (`IsZero`): `-0.0`, empty-but-non-nil values and zero values with their own marshaler arrive changed",
+ "C02-d": "'back-pressure': the connection loop stops taking requests while 256 are in flight; with more concurrent callers whose handlers wait for one another nothing ever returns",
+ "C03-d": "the retry back-off becomes `select { time.After / ctx.Done() }`: for a retry-tagged method without a context parameter `ctx` is nil and the call panics instead of returning",
+ "C04-d": "requests after which no frame arrived are kept at a reconnect and written again on the new connection: an untagged call runs twice",
+ "C05-d": "`sleepCtx` between retry attempts returns at once for a nil context: retry-tagged methods without a context parameter surface the connection error although the link heals",
+ "C06-d": "a 'leak fix' releases the handler context when an output channel closes, through a request-id slice that is not truncated: closing a later subscription cancels an older, open one",
+ "C07-d": "once the server has closed a stream the client drops what is still buffered after 5 s without a read: a consumer that comes back later loses values",
+ "C08-d": "`handleCtxAsync` deletes `chanHandlers[chid]` when its context ends: after a reconnect the id belongs to a new subscription, which then never receives nor closes",
+ "C09-d": "the empty-body check moved before the trimming: a body of white space only is answered -32700 / 500 instead of -32600 / 400",
+ "C10-d": "blank frames are dropped in `readFrame` before the reader is re-armed: one blank frame and the connection reads nothing any more",
+ "C11-d": "`createError` returns the generic error early for types that are not in the server's table: codec-style errors lose the code, message and data they supply themselves",
+ "C12-d": "the client trims a leading `.` from the method name when its namespace is empty: it asks for `Foo` where the server registered `.Foo`",
+ "C13-d": "the recover handler logs the stack once per method name, remembered in an unlocked package-level map: handlers panicking together under different names kill the process",
+ "C14-d": "notifications and cancel messages are written by the loop without `writeLk`",
+ "C15-d": "`handleChanOut` checks `exiting` once and then blocks on `registerCh`: a handler handing over its channel while the forwarder is busy is retained when the connection ends",
+ "C16-d": "the reverse client struct is built once per option instead of per connection: every connection's reverse calls go out on the latest connection",
+ "C17-d": "`WithTimeout` raises values below 2 x (current ping interval) + 1 s: listed before `WithPingInterval` a 300 ms timeout becomes 11 s",
+ "C18-d": "`handleResponse` removes the in-flight entry at lookup: a response that cannot be used (a subscribing call answered with a non-number) leaves a call that no close releases",
+ "C19-d": "the `token` query parameter takes precedence over the Authorization header",
+ "C20-d": "the rendezvous lookup under `RLock`, the creation under `Lock` without looking again: upload and request arriving within a few hundred ns of one another never meet",
+})
 for n in sorted(mat):
     m = mat[n]
     ob = "yes" if m.get("failed_obligations") else "–"
@@ -103,7 +125,7 @@ for pid in sorted(T):
     out.append("**Theorems** (%d, all `Closed under the global context`): %s.\n" % (len(names), ", ".join("`%s`" % x for x in names)))
     out.append("**What they say, and the tie.** " + t['text'] + "\n")
     out.append("**Correspondence runs.** " + nt['fam'] + "\n")
-    for suf in ("-a", "-b", "-c"):
+    for suf in ("-a", "-b", "-c", "-d"):
         m = mat.get(pid + suf)
         if m:
             parts = []
